@@ -644,6 +644,49 @@ def r5(ctx):
     # sample selection: decided by `unselected-sample-inert` above (an unselected sample changes nothing), however the skip is written
 
 
+@rule('C18', 'C18-R6', 'the region filter of the cache reader keeps what the region fetch of the writer stored: VariantFile.fetch(start, stop) yields the sites with start <= position < stop '
+                       '(0-based), so for every such position the reader reaches the store - it neither skips it nor stops before it (decided over all small (position, start, stop), '
+                       'bounds given or not)')
+def r6(ctx):
+    from ..util import outcomes_by_case
+    ms = methods(ctx)
+    f = ms['read_cached']
+    loops = [l for l in walk_no_nested(f) if isinstance(l, ast.For)]
+    loops = [l for l in loops if any(isinstance(s_, ast.Assign) and 'locationToAllele' in src(s_.targets[0]) for s_ in walk_no_nested(l))]
+    ctx.need('C18-R6', len(loops), 1, 'record loop of read_cached')
+    loop = loops[0]
+    store = [s_ for s_ in walk_no_nested(loop) if isinstance(s_, ast.Assign) and 'locationToAllele' in src(s_.targets[0])][0]
+    pos = None
+    t_ = store.targets[0]
+    while isinstance(t_, ast.Subscript):
+        if isinstance(t_.value, ast.Subscript) and isinstance(t_.value.value, ast.Subscript) is False and isinstance(t_.value.value, ast.Attribute):
+            pos = src(t_.slice)
+        t_ = t_.value
+    # the position key is the second subscript of locationToAllele[chrom][position][base]
+    chain = []
+    t_ = store.targets[0]
+    while isinstance(t_, ast.Subscript):
+        chain.append(src(t_.slice))
+        t_ = t_.value
+    pos = chain[-2] if len(chain) >= 2 else pos
+    atom = lambda x: None if isinstance(x, ast.Compare) else {pos: 'p', f'int({pos})': 'p', 'self.region_start': 's', 'self.region_end': 'e'}.get(src(x))
+    bad, n = None, 0
+    for has_s in (True, False):
+        for has_e in (True, False):
+            facts = {'self.region_start is not None': has_s, 'self.region_start is None': not has_s, 'self.region_end is not None': has_e, 'self.region_end is None': not has_e}
+            cases = [{'p': p_, 's': s_, 'e': e_} for p_ in range(0, 4) for s_ in range(0, 4) for e_ in range(0, 5) if (not has_s or s_ <= p_) and (not has_e or p_ < e_)]
+            for case, outs in outcomes_by_case(loop.body, cases, atom, facts=facts, on_node=lambda nd: 'store' if getattr(nd, 'ast', None) is store else None):
+                n += 1
+                stored = ('passed', 'store') in outs
+                left = {k_ for k_, v_ in outs if k_ in ('continue', 'break', 'return', 'raise')}
+                if (not stored or left) and bad is None:
+                    bad = {'position': case['p'], 'region_start': case['s'] if has_s else None, 'region_end': case['e'] if has_e else None, 'outcomes': sorted(map(str, outs))}
+    ctx.counters['abstract_cases'] += n
+    ctx.emit('C18-R6', bad is None, ALLELES, loop, f'cache reader over {n} (position, start, stop) cases inside the fetched region: every record is stored' if bad is None else
+             f'the cache reader drops a site the region fetch delivers: {bad} - the answers read from the cache differ from those of the run that wrote it', key='cache-region-filter', witness=bad,
+             what='read_cached: region filter rejects a position inside [region_start, region_end)')
+
+
 META = {
     'text': ('Decides structural clauses: eager, lazy and cached modes all obtain content through fetchChromosome (read_cached / write_cache only from '
              'there; lookups fetch with clear=True under self.lazyLoad); no attribute read by the lookups is a stale snapshot of a constructor local; '
